@@ -49,16 +49,19 @@ Candidate defect of the unchanged tree found by this check (kept strict; reporte
 from __future__ import annotations
 
 META = {
-    "level": "exploration",
-    "engine": "sweep",
-    "technique": "run-time contract sweep (bounded stand-in for deduction): row/column-sum and transposition postconditions of the "
+    "level": "other",
+    "engine": "pse",
+    "technique": "contract-based deductive verification of the transposition clause: the real MortarGrid._set_projections, "
+                 "optimized_compressed_storage, sparse_kronecker_product and the public projection accessors run on sparse-matrix proxies of "
+                 "symbolic shape and content, mortar_to_X_int(nd) = X_to_mortar_avg(nd)^T and mortar_to_X_avg(nd) = X_to_mortar_int(nd)^T entry by "
+                 "entry (z3, nd 1..3) plus the frame of the side not asked for; run-time contract sweep (bounded stand-in): row/column-sum and transposition postconditions of the "
                  "statement evaluated on real MortarGrid objects after every step of enumerated replacement sequences; exact rational "
                  "overlap oracle for match_1d and for the states whose weights the statement determines",
     "text": "Bounded (tier B): 1-D mortars between a 2-D tensor grid with one fracture and its 1-D fracture grid; all sequences of up to 3 "
             "replacements (mortar / secondary / primary, refinement ratios 2-4, non-nested and non-uniform node sets, one-sided mortar "
             "replacement) from enumerated menus; match_1d on all ordered pairs of the node sets; 2-D mortars (match_2d, structured triangle "
-            "grids) in the thorough tier only. The transposition clause is checked at run time here (its proof by construction in "
-            "_set_projections is not part of this file). Not covered: update_primary for 2-D mortars (NotImplementedError in porepy), "
+            "grids) in the thorough tier only. Tier P: the transposition clause holds by construction in _set_projections for all shapes and "
+            "contents; that every mutator calls it for the side it changed, and the sum clauses, are bounded (sweep). Not covered: update_primary for 2-D mortars (NotImplementedError in porepy), "
             "simplex 2-D/3-D host grids (gmsh), fractures crossed by another fracture (match_grids_along_1d_mortar rejects them).",
     "note": "covered primary faces and their geometric side are taken from the fracture_faces tags and geometry of the independently "
             "meshed primary grid (pp.meshing.tensor_grid, C25); tolerance 1e-12 absolute on weights and sums (all weights are in [0,1]); "
@@ -442,6 +445,86 @@ def bases(pp, np, tier):
     return out
 
 
+# ----------------------------------------------------------------------------- tier P: transposition clause by construction
+
+
+def case_set_projections(pp, primary, secondary, nd):
+    """The real MortarGrid._set_projections (+ the real optimized_compressed_storage and the real public accessors with their
+    sparse_kronecker_product) on a MortarGrid whose four stored X_to_mortar matrices are arbitrary sparse matrices of symbolic
+    shape: afterwards mortar_to_X_int(nd) = X_to_mortar_avg(nd)^T and mortar_to_X_avg(nd) = X_to_mortar_int(nd)^T for every side
+    that was asked for, and the other side's stored matrices are untouched."""
+    import z3
+
+    from engine.arrays import SymMat
+    from engine.sym import SymBool
+
+    def run(ctx):
+        nm, nf, ncs = ctx.int("n_mortar"), ctx.int("n_primary_faces"), ctx.int("n_secondary_cells")
+        ctx.assume((nm >= 1) & (nf >= 1) & (ncs >= 1))
+        mg = pp.MortarGrid.__new__(pp.MortarGrid)
+        mg._primary_to_mortar_int = SymMat.fresh("p2m_int", nm, nf, "csc")
+        mg._primary_to_mortar_avg = SymMat.fresh("p2m_avg", nm, nf, "csc")
+        mg._secondary_to_mortar_int = SymMat.fresh("s2m_int", nm, ncs, "csc")
+        mg._secondary_to_mortar_avg = SymMat.fresh("s2m_avg", nm, ncs, "csc")
+        stale = {}
+        for side, n in (("primary", nf), ("secondary", ncs)):
+            for kind in ("int", "avg"):
+                stale[side, kind] = SymMat.fresh(f"stale_m2{side[0]}_{kind}", n, nm, "csr")
+                setattr(mg, f"_mortar_to_{side}_{kind}", stale[side, kind])
+        mg._set_projections(primary=primary, secondary=secondary)
+        i, j = ctx.int("i"), ctx.int("j")
+        kk = z3.IntVal(nd)
+        for side, n, asked in (("primary", nf, primary), ("secondary", ncs, secondary)):
+            if asked:
+                for a, b in (("int", "avg"), ("avg", "int")):
+                    back = getattr(mg, f"mortar_to_{side}_{a}")(nd)
+                    fwd = getattr(mg, f"{side}_to_mortar_{b}")(nd)
+                    rng = z3.And(i.t >= 0, i.t < n.t * kk, j.t >= 0, j.t < nm.t * kk)
+                    ctx.prove(f"mortar_to_{side}_{a}(nd) has the shape of {side}_to_mortar_{b}(nd) transposed",
+                              SymBool(z3.And(sym_i(back.shape[0]) == sym_i(fwd.shape[1]), sym_i(back.shape[1]) == sym_i(fwd.shape[0]),
+                                             sym_i(back.shape[0]) == n.t * kk, sym_i(back.shape[1]) == nm.t * kk)))
+                    ctx.prove(f"mortar_to_{side}_{a}(nd) == {side}_to_mortar_{b}(nd)^T entry by entry",
+                              SymBool(z3.Implies(rng, back._entry(i.t, j.t) == fwd._entry(j.t, i.t))))
+                if side == "primary":
+                    rng = z3.And(i.t >= 0, i.t < n.t * kk, j.t >= 0, j.t < nm.t * kk)
+                    ctx.prove("CANARY: mortar_to_primary_int(nd) == primary_to_mortar_int(nd)^T",
+                              SymBool(z3.Implies(rng, mg.mortar_to_primary_int(nd)._entry(i.t, j.t) == mg.primary_to_mortar_int(nd)._entry(j.t, i.t))),
+                              expect_refuted=True)
+            else:
+                for kind in ("int", "avg"):
+                    ctx.prove(f"frame: _mortar_to_{side}_{kind} untouched when the side is not asked for",
+                              SymBool(z3.BoolVal(getattr(mg, f"_mortar_to_{side}_{kind}") is stale[side, kind])))
+        return "ok"
+
+    return run
+
+
+def sym_i(x):
+    from engine.sym import iterm
+
+    return iterm(x)
+
+
+def prove(rep, pp):
+    from engine import indexmodels, shims
+    from engine.harness import run_case
+    from porepy.grids import mortar_grid as mgmod
+    from porepy.numerics.linalg import matrix_operations as mo
+
+    rep.under_contract("MortarGrid._set_projections [tier P]", "MortarGrid.mortar_to_{primary,secondary}_{int,avg} / {primary,secondary}_to_mortar_{int,avg} [tier P]",
+                       "matrix_operations.optimized_compressed_storage [tier P, real body]", "matrix_operations.sparse_kronecker_product [tier P, real body]")
+    refuted = []
+    with shims.shadow_builtins([mgmod, mo]), shims.numpy_shims(), indexmodels.index_shims():
+        for primary, secondary in ((True, True), (True, False), (False, True)):
+            for nd in (1, 2, 3):
+                rf, _ = run_case(rep, f"_set_projections(primary={primary}, secondary={secondary}), nd={nd}", case_set_projections(pp, primary, secondary, nd))
+                refuted += rf
+    rep.trust(*sorted(shims.USED_MODELS))
+    for name, ctx, r in refuted:
+        rep.violation(name, name.split(":")[0], inputs=None, detail=f"z3 counter-model: {r['model']}"[:1500], confirmed=False,
+                      solver_output=str(r["model"]))
+
+
 def run(rep):
     import warnings
 
@@ -450,6 +533,7 @@ def run(rep):
 
     warnings.simplefilter("ignore")
     quick = rep.tier == "quick"
+    prove(rep, pp)
     rep.under_contract("MortarGrid.__init__ / _init_projections / _set_projections", "MortarGrid.update_mortar", "MortarGrid.update_secondary",
                        "MortarGrid.update_primary", "MixedDimensionalGrid.replace_subdomains_and_interfaces", "porepy.grids.match_grids.match_1d",
                        "porepy.grids.match_grids.match_grids_along_1d_mortar", "porepy.grids.match_grids.match_2d (thorough tier)")
